@@ -173,10 +173,15 @@ def node_start_value(res: Result, fails: list):
     import vnode
     from diameter.node import Node
     base = (1_700_000_000 // 4096) * 4096
-    for now in (1_700_000_000, 1_700_000_000 + 4095, 2**31 + 17, base, base + 4096, base - 1, base + 1, 4096 * 400000,
-                2**31, 2**32 - 4096):
+    for now, tick in [(t, None) for t in (1_700_000_000, 1_700_000_000 + 4095, 2**31 + 17, base, base + 4096, base - 1, base + 1,
+                                           4096 * 400000, 2**31, 2**32 - 4096)] + \
+                     [(t, k) for t in (base + 4094, base + 4095, base - 1, 1_700_000_000) for k in range(2, 9)]:
+        # (tick = k: the clock moves on to the next second at its k-th reading during construction; the start time of the node
+        # is the one it reports as Origin-State-Id)
         env = vnode.Env()
         env.now = now
+        if tick is not None:
+            env.tick_at_read = tick
         env.install()
         import diameter.node._helpers as helpers_mod
 
@@ -190,12 +195,13 @@ def node_start_value(res: Result, fails: list):
         try:
             n = Node("node.local", "realm.local", ip_addresses=["10.0.0.1"], tcp_port=3868)
             v = n.end_to_end_seq.sequence
+            started = n.state_id
         finally:
             env.uninstall()
         res.cases += 1
-        if (v >> 20) != (now & 0xfff):
+        if (v >> 20) != (started & 0xfff) or started not in (now, now + 1) or (tick is None and started != now):
             fails.append({"what": "Node's end-to-end generator is not seeded with the low 12 bits of the start time",
-                          "real": f"now={now} start={hex(v)}"})
+                          "real": f"now={now} clock ticks at reading {tick} start time (Origin-State-Id)={started} generator start={hex(v)}"})
 
 
 def node_handed_out(res: Result, fails: list):
@@ -364,7 +370,14 @@ def run(res: Result, tier: str, seed: int):
     sequential(res, rng, tier, fails, div)
     node_start_value(res, fails)
     node_handed_out(res, fails)
-    schedules(res, rng, tier, fails, div)
+    try:
+        # (a draw that never returns -- code outside the stepped lines waiting for a lock that a paused caller holds -- must
+        # end the exploration, not the check)
+        with linesched.deadline(900 if tier == "quick" else 5400):
+            schedules(res, rng, tier, fails, div)
+    except linesched.StepHang as e:
+        fails.append({"what": "a caller drawing an identifier never returns under some schedule (the exploration made no "
+                              f"progress: {e})", "kind": "hang"})
     for f in fails:
         if f.get("kind") == "schedule" and "threads_replay" not in f:
             try:
